@@ -85,7 +85,8 @@ def render_block(stmts, indent, out):
                 out.append(f"{pad}finally:")
                 render_block(s[4], indent + 1, out)
         elif t == "with":
-            out.append(f"{pad}with {'Suppress' if s[1] == 'S' else 'NoSuppress'}():")
+            # s[1] lists the context managers of one with statement, left to right: S suppresses Boom, N does not
+            out.append(f"{pad}with {', '.join(('Suppress' if c == 'S' else 'NoSuppress') + '()' for c in s[1])}:")
             render_block(s[2], indent + 1, out)
         else:
             raise ValueError(s)
@@ -345,8 +346,8 @@ class Analysis:
             r.cont |= body.cont
             r.ret |= body.ret
             r.nexc |= body.nexc
-            if s[1] == "S":
-                r.normal |= raised  # Boom is swallowed, execution continues after the block
+            if "S" in s[1]:
+                r.normal |= raised  # Boom is swallowed (by whichever item suppresses), execution continues after the block
                 if self.liberal:
                     r.exc |= raised  # __exit__ -> bool: may or may not suppress
             else:
@@ -641,7 +642,7 @@ def signature(stmts):
                     found |= jumps(h, through + ["EXC"])
                 found |= jumps(s[3], through + ["TELSE"]) | jumps(s[4], through + ["FIN"])
             elif t == "with":
-                found |= jumps(s[2], through + ["W" + s[1]])
+                found |= jumps(s[2], through + ["W" + ("S" if "S" in s[1] else "N")])
         return found
     jumps(stmts, [])
 
@@ -689,7 +690,9 @@ def signature(stmts):
                     toks.add("FIN")
                     go(s[4])
             elif t == "with":
-                toks.add("W" + s[1])
+                toks.add("W" + ("S" if "S" in s[1] else "N"))
+                if len(s[1]) > 1:
+                    toks.add("WMULTI")
                 go(s[2])
     go(stmts)
     return ",".join(sorted(toks)) or "flat"
